@@ -1,2 +1,105 @@
-(** C15 - theorems under construction. *)
-From Coq Require Import ZArith.
+(** C15 - no heap allocation unless the alloc feature is enabled (partial by nature: allocation is a
+    runtime effect of the compiled program; it is decided by the counting global allocator, the
+    symbol table of the compiled rlib and the inventory of allocation-capable constructs - see
+    tools/vlib/props3.py check_c15).
+    What the model carries: with [alloc c = false] the only storage is the fixed 62-limb vector -
+    every vector the big-integer path builds satisfies [vgood] with [vcap = BIGINT_LIMBS L] (never
+    grown: growth [grow] exists only on the heap back-end of model/Vec.v), and operations that
+    would need more report [None] instead ([small_mul_None_iff_overflow], [shl_stack_none], ...).
+    The theorems below are the capacity-preservation facts, closed by [exact]. *)
+
+From Coq Require Import ZArith List Bool.
+From ML Require Import base.RustSem model.Fmt model.Vec model.Bigint model.Slow gen.Consts gen.Tables gen.PowDump
+  proofs.LimbVal proofs.BigintFacts1 proofs.BigintFacts2 proofs.SlowFacts1 proofs.RawVecFacts.
+Import ListNotations.
+
+Open Scope Z_scope.
+
+Theorem C15_parse_mantissa_closed :
+  forall (c : config) (T : tables) (L : limits) (b : build) (maxd : Z),
+         pm_tables_ok c T = true ->
+         10 ^ (maxd + 1) <= B64 ^ BIGINT_LIMBS L ->
+         0 < maxd ->
+         forall i fr : list Z,
+         forallb Decimal.digitb i = true ->
+         forallb Decimal.digitb fr = true ->
+         (forall (ch : Z) (r : list Z), i = ch :: r -> ch <> 48) ->
+         exists (v : vec) (cnt : Z),
+           parse_mantissa c T L b i fr maxd = Ok (v, cnt) /\
+           (lval (vl v), cnt) = pm_out maxd [] (ParseFacts.strip0 (i ++ fr)) /\ vgood c L v.
+Proof. exact parse_mantissa_closed. Qed.
+
+Theorem C15_from_u64_spec :
+  forall L : limits,
+         limits_ok L ->
+         forall x : Z,
+         from_u64 RawVec.stack_cfg L checked_build x =
+         Ok {| vl := normalize_list [x]; vcap := BIGINT_LIMBS L |}.
+Proof. exact from_u64_spec. Qed.
+
+Theorem C15_small_mul_spec :
+  forall (c : config) (v : vec) (y : Z) (v' : vec),
+         limbs_ok (vl v) ->
+         0 <= y < B64 ->
+         small_mul c v y = Some v' ->
+         lval (vl v') = lval (vl v) * y /\
+         limbs_ok (vl v') /\
+         zlen (vl v') = zlen (vl v) + (if B64 ^ zlen (vl v) <=? lval (vl v) * y then 1 else 0) /\
+         (alloc c = false -> vcap v' = vcap v) /\
+         (zlen (vl v') = zlen (vl v) -> vcap v' = vcap v) /\
+         vcap v <= vcap v' /\ (zlen (vl v) <= vcap v -> zlen (vl v') <= vcap v').
+Proof. exact small_mul_spec. Qed.
+
+Theorem C15_small_add_spec :
+  forall (c : config) (v : vec) (y : Z) (v' : vec),
+         limbs_ok (vl v) ->
+         0 <= y < B64 ->
+         small_add c v y = Some v' ->
+         lval (vl v') = lval (vl v) + y /\
+         limbs_ok (vl v') /\
+         zlen (vl v') = zlen (vl v) + (if B64 ^ zlen (vl v) <=? lval (vl v) + y then 1 else 0) /\
+         (alloc c = false -> vcap v' = vcap v) /\
+         (zlen (vl v') = zlen (vl v) -> vcap v' = vcap v) /\
+         vcap v <= vcap v' /\ (zlen (vl v) <= vcap v -> zlen (vl v') <= vcap v').
+Proof. exact small_add_spec. Qed.
+
+Theorem C15_long_mul_spec :
+  forall (c : config) (L : limits) (x y : list Z) (z : vec),
+         limbs_ok x ->
+         limbs_ok y ->
+         y <> [] ->
+         long_mul c L x y = Some z ->
+         lval (vl z) = lval x * lval y /\
+         limbs_ok (vl z) /\
+         is_normalized (vl z) = true /\
+         (alloc c = false -> vcap z = BIGINT_LIMBS L) /\ BIGINT_LIMBS L <= vcap z /\ zlen (vl z) <= vcap z.
+Proof. exact long_mul_spec. Qed.
+
+Theorem C15_shl_spec :
+  forall (c : config) (L : limits) (b : build) (v : vec) (n : Z) (v' : vec),
+         LIMB_BITS L = 64 ->
+         0 <= n < 2 ^ 64 ->
+         zlen (vl v) < 2 ^ 63 ->
+         limbs_ok (vl v) ->
+         shl c L b v n = Ok (Some v') ->
+         lval (vl v') = lval (vl v) * 2 ^ n /\
+         limbs_ok (vl v') /\
+         (alloc c = false -> vcap v' = vcap v) /\
+         (vl v = [] -> vl v' = []) /\ (is_normalized (vl v) = true -> is_normalized (vl v') = true).
+Proof. exact shl_spec. Qed.
+
+Theorem C15_len_le_cap :
+  forall (L : limits) (r : RawVec.raw),
+         Inv L r ->
+         0 <= RawVec.rlen r <= RawVec.cap L /\
+         RawVec.rlen r = zlen (abs r) /\ zlen (RawVec.cells r) = RawVec.cap L.
+Proof. exact len_le_cap. Qed.
+
+
+Print Assumptions C15_parse_mantissa_closed.
+Print Assumptions C15_from_u64_spec.
+Print Assumptions C15_small_mul_spec.
+Print Assumptions C15_small_add_spec.
+Print Assumptions C15_long_mul_spec.
+Print Assumptions C15_shl_spec.
+Print Assumptions C15_len_le_cap.
